@@ -126,7 +126,9 @@ func verifyFunction(w *World, ss *SpecSet, fn *ssa.Function, spec *FuncSpec) (re
 			env.vars[k] = v
 		}
 		v := env.eval(c.E)
+		e.ctx.group = c.Group
 		e.ctx.assume(v.T)
+		e.ctx.group = ""
 		reqs = append(reqs, v.T)
 	}
 	// unchecked assumptions of the contract (reported in the evidence)
@@ -218,7 +220,9 @@ func verifyFunction(w *World, ss *SpecSet, fn *ssa.Function, spec *FuncSpec) (re
 				name = "post:" + c.Name
 			}
 			e.onlyProps = c.OnlyProps
+			e.ctx.group = c.Group
 			e.oblige(fr, rst, name, "postcondition: "+c.Src, pos, v.T)
+			e.ctx.group = ""
 			e.onlyProps = nil
 		}
 		e.checkGuarantees(fr, rst, pos)
